@@ -71,6 +71,7 @@ RULES = {
 
 
 def run(ctx):
+    ctx = hr.Gate(ctx)
     for modname, cname, kind, excl in BFS_TREES:
         ctx.repo.cls(modname, cname)
         fn = ctx.repo.func(modname, cname + ".compute")
@@ -261,10 +262,23 @@ def bfs_tree(ctx, modname, cname, fn0, kind, excl):
         return
     # ---- seen table and child: from a mark / a test of a flag on a member of the popped pair
     SEEN = child = None
+    tested_tabs = set()
+    for st in au.stmts(loop.body):
+        for e, p in F.conds(st, stop=loop):
+            ft = hr.flag_test(e, p)
+            if ft and isinstance(ft[0], ast.Name) and isinstance(ft[1], ast.Name) and ft[1].id in pair:
+                tested_tabs.add((ft[0].id, ft[1].id))
+    mark_cands = []
     for st in au.stmts(loop.body):
         fm = hr.flag_mark(st)
         if fm and isinstance(fm[0], ast.Name) and isinstance(fm[1], ast.Name) and fm[1].id in pair and fm[2] is True:
-            SEEN, child = fm[0].id, fm[1].id
+            mark_cands.append((fm[0].id, fm[1].id))
+    pref = [c_ for c_ in mark_cands if c_ in tested_tabs] or mark_cands
+    if len(set(pref)) > 1:
+        ctx.undecided("C10-B1", site, "several flag tables are marked on the popped pair: the seen table of the search is not identified", "")
+        return
+    if pref:
+        SEEN, child = pref[0]
     if SEEN is None:
         for st in au.stmts(loop.body):
             for e, p in F.conds(st, stop=loop):
@@ -288,6 +302,17 @@ def bfs_tree(ctx, modname, cname, fn0, kind, excl):
         return
     par = [x for x in pair if x != child][0]
     ci, pi = pair.index(child), pair.index(par)
+    # a flag table of the opposite polarity (`todo` / `unseen`: starts all True / holds every id, cleared when an element is reached) is not analysed
+    sd0 = F.definition(SEEN, loop)
+    iv0, fd0 = F.initial_values(SEEN, loop)
+    all_true = fd0 and iv0 and all(isinstance(x_, ast.Constant) and x_.value is True for x_ in iv0)
+    full_set = isinstance(sd0, ast.Call) and au.call_tail(sd0) in ("set", "frozenset") and sd0.args
+    cleared = [st_ for st_ in au.stmts(loop.body) if (fm_ := hr.flag_mark(st_)) and isinstance(fm_[0], ast.Name) and F.root(fm_[0].id, st_) == F.root(SEEN, st_) and fm_[2] is False] + \
+        [c_ for c_ in au.calls(loop) if isinstance(c_.func, ast.Attribute) and c_.func.attr in ("discard", "remove") and isinstance(c_.func.value, ast.Name)
+         and F.root(c_.func.value.id, c_) == F.root(SEEN, c_)]
+    if (all_true or full_set) and cleared:
+        ctx.undecided("C10-B1", site, "the flags of the search are kept with the opposite polarity (a table that starts full and is cleared): this scheme is not analysed", "")
+        return
 
     def is_seen(e, p, key_name, at):
         ft = hr.flag_test(e, p)
@@ -347,20 +372,40 @@ def bfs_tree(ctx, modname, cname, fn0, kind, excl):
         # conditions on the enqueue that are neither a flag test nor a None test: the exclusion may hide behind them (fast paths, flags)
         foreign_conds = [e_ for e_, p_ in conds if not hr.flag_test(e_, p_) and not (isinstance(e_, ast.Compare) and len(e_.ops) == 1
                          and isinstance(e_.ops[0], (ast.Is, ast.IsNot)) and hr.is_none(e_.comparators[0]))]
+        # every mention of the exclusion in the function that is not one of the conditions of this enqueue: the exclusion may be applied
+        # elsewhere (when the pair is popped, on a staged list ..)
+        cond_nodes = {id(n_) for e_, p_ in conds for n_ in ast.walk(e_)}
+        excl_elsewhere = [n_ for n_ in au.walk(fn) if au.is_self_attr(n_, excl[1]) and id(n_) not in cond_nodes
+                          and not any(hr.same(n_, m_) for e_, p_ in conds for m_ in ast.walk(e_) if isinstance(m_, ast.Attribute))]
         if excl[0] == "call":
             hit = None
+            popped_roots = sorted([F.root(par, loop), F.root(child, loop)])
+            pop_side = False
             for e, p in conds:
                 if isinstance(e, ast.Call) and au.is_self_attr(e.func, excl[1]):
                     args = [F.root(a.id, c) if isinstance(a, ast.Name) else au.src(F.resolve(a, c)) for a in e.args]
                     want = [F.root(cc, c), (F.root(pe.id, c) if isinstance(pe, ast.Name) else au.src(F.resolve(pe, c)))]
-                    hit = (p, sorted(args) == sorted(want))
+                    if expanded is not None and sorted(args) == popped_roots and sorted(args) != sorted(want):
+                        pop_side = pop_side or not p        # the popped pair itself is tested before it is accepted
+                        continue
+                    known = set(want) | set(popped_roots)
+                    hit = (p, sorted(args) == sorted(want), all(a_ in known for a_ in args))
+            # exclusion applied to every pair when it is popped: `if seen[child] or self.avoid(parent, child): continue`
+            mark_conds = [(e_, p_) for st_ in au.stmts(loop.body) if (fm_ := hr.flag_mark(st_)) and isinstance(fm_[1], ast.Name) and fm_[1].id == child
+                          for e_, p_ in F.conds(st_, stop=loop)]
+            pop_excl = any(isinstance(e_, ast.Call) and au.is_self_attr(e_.func, excl[1]) and not p_ and
+                           sorted(F.root(a.id, loop) if isinstance(a, ast.Name) else au.src(a) for a in e_.args) == popped_roots for e_, p_ in mark_conds)
             if hit and hit[1] and not hit[0]:
                 ctx.ok("C10-X1", s, f"enqueue guarded by not self.{excl[1]}")
-            elif hit and hit[0]:
+            elif hit and hit[0] and hit[1]:
                 ctx.fail("C10-X1", s, f"enqueue is guarded by `self.{excl[1]}(parent, neighbour)` (inverted)", "only excluded edges are crossed")
-            elif hit:
+            elif hit and hit[2] and not hit[1]:
                 ctx.fail("C10-X1", s, f"`self.{excl[1]}` is not applied to the edge (expanded element, neighbour)", "the exclusion is tested on another edge")
-            elif opaque or foreign_conds:
+            elif hit:
+                ctx.undecided("C10-X1", s, "the arguments of the exclusion test of the enqueue are not recognised", "")
+            elif pop_excl:
+                ctx.ok("C10-X1", s, f"every popped pair is tested with not self.{excl[1]} before it is accepted")
+            elif opaque or foreign_conds or excl_elsewhere or pop_side:
                 ctx.undecided("C10-X1", s, "the exclusion test of the enqueue is not visible", "")
             else:
                 ctx.fail("C10-X1", s, f"enqueue is not guarded by `not self.{excl[1]}(parent, neighbour)`",
@@ -376,13 +421,15 @@ def bfs_tree(ctx, modname, cname, fn0, kind, excl):
                 truthy = [e for e, p in conds if isinstance(e, ast.BoolOp) and any(au.is_self_attr(n, excl[1]) for n in ast.walk(e))]
                 if truthy:
                     # `e and (e in forbidden)` : a truthiness test of the element id in front of the membership test (index 0 is falsy)
-                    bad = [v for t_ in truthy for v in t_.values if isinstance(v, ast.Name)]
+                    tested_ = {au.src(n_.left) for t_ in truthy for n_ in ast.walk(t_) if isinstance(n_, ast.Compare) and len(n_.ops) == 1
+                               and isinstance(n_.ops[0], (ast.In, ast.NotIn))}
+                    bad = [v for t_ in truthy for v in t_.values if isinstance(v, ast.Name) and v.id in tested_]
                     if bad:
                         ctx.fail("C10-X1", s, f"the membership test in self.{excl[1]} is short-circuited by the truthiness of the element id",
                                  "element index 0 is falsy: the exclusion is never applied to it")
                     else:
                         ctx.undecided("C10-X1", s, f"the test on self.{excl[1]} is part of a compound condition", "")
-                elif opaque or foreign_conds:
+                elif opaque or foreign_conds or excl_elsewhere:
                     ctx.undecided("C10-X1", s, "the exclusion test of the enqueue is not visible", "")
                 else:
                     ctx.fail("C10-X1", s, f"enqueue is not guarded by `<element crossed> not in self.{excl[1]}`",
@@ -390,9 +437,21 @@ def bfs_tree(ctx, modname, cname, fn0, kind, excl):
             else:
                 e, p = tests[0]
                 lhs = F.resolve(e.left, c) if p is not None else None
+                def same_binding(nm_, other_):
+                    """the name tested denotes the same value as `other_` at the enqueue (a name that is re-bound in between does not)"""
+                    at_test = au.enclosing_stmt(e.left) if F._attached(e.left) else None
+                    if at_test is None:
+                        orig_ = [n_ for n_ in au.walk(fn) if isinstance(n_, ast.Compare) and hr.same(n_, e)]
+                        at_test = au.enclosing_stmt(orig_[0]) if len(orig_) == 1 else None
+                    if F.root(nm_, c) != F.root(other_, c):
+                        return False
+                    if at_test is None:
+                        return True
+                    d1, d2 = F.b.reaching(nm_, at_test), F.b.reaching(nm_, c)
+                    return d1 is d2 or (isinstance(d1, tuple) and d1 == d2)
                 on_self = p is not None and (au.is_self_attr(lhs, "root") or au.is_self_attr(e.left, "root") or
-                                             (isinstance(e.left, ast.Name) and (F.root(e.left.id, c) == F.root(cc, c) or
-                                                                              (expanded is not None and F.root(e.left.id, c) == F.root(expanded, c)))))
+                                             (isinstance(e.left, ast.Name) and (same_binding(e.left.id, cc) or
+                                                                              (expanded is not None and same_binding(e.left.id, expanded)))))
                 if p is None:
                     ctx.undecided("C10-X1", s, f"the test on self.{excl[1]} is not a plain membership test", "")
                 elif p is True:
@@ -429,14 +488,35 @@ def bfs_tree(ctx, modname, cname, fn0, kind, excl):
                 x = _is_none_cmp(e)
                 if x is not None and isinstance(x, ast.Name) and F.root(x.id, c) == F.root(cc, c) and not p:
                     nn = True
-            ctx.check(nn, "C10-X1", s, f"neighbour returned by {au.call_tail(d)} is used without `is not None` test",
-                      f"{au.call_tail(d)} returns None on the border: seen[None] raises TypeError", note="neighbour is not None")
+            other_none = [n_ for n_ in au.walk(fors[0] if fors else fn) if (isinstance(n_, ast.Constant) and n_.value is None) or
+                          (isinstance(n_, ast.Name) and n_.id == "NoneType")] if not nn else []
+            odd_conds = [e_ for e_, p_ in conds if cc in au.names(e_) and not hr.flag_test(e_, p_) and _is_none_cmp(e_) is None] if not nn else []
+            pred_conds = [e_ for e_, p_ in conds if any(isinstance(n_, ast.Call) and au.call_tail(n_) in ("is_edge_on_border", "is_vertex_on_border", "face_to_cells",
+                                                                                                          "edge_to_faces", "direct_face", "len")
+                                                        for n_ in ast.walk(e_))] if not nn else []
+            if not nn and (other_none or odd_conds or pred_conds or F.opaque(fors[0] if fors else fn, {cc})):
+                ctx.undecided("C10-X1", s, f"how the neighbour returned by {au.call_tail(d)} is tested for None is not recognised", "")
+            else:
+                ctx.check(nn, "C10-X1", s, f"neighbour returned by {au.call_tail(d)} is used without `is not None` test",
+                          f"{au.call_tail(d)} returns None on the border: seen[None] raises TypeError", note="neighbour is not None")
     # ---- B1: mark, parent, expansion, root
     marks = [(st, fm) for st in au.stmts(loop.body) if (fm := hr.flag_mark(st)) and isinstance(fm[0], ast.Name) and fm[0].id == SEEN
              and isinstance(fm[1], ast.Name) and fm[1].id == child]
     gm = [st for st, fm in marks if fm[2] is True and all(is_seen(e, p, child, st) for e, p in F.conds(st, stop=loop))]
+    def discards_pair(st_):
+        """the conditions of the mark other than the seen test also guard every expansion: the pair is either processed entirely or dropped"""
+        extra_ = {(hr.key(e), p) for e, p in F.conds(st_, stop=loop) if not is_seen(e, p, child, st_)}
+        return bool(inloop) and all(extra_ <= {(hr.key(e), p) for e, p in F.conds(c_, stop=loop)} for c_ in inloop)
     if len(gm) >= 1 and len(gm) == len(marks):
         ctx.ok("C10-B1", site, "child marked seen")
+    elif marks and all(fm[2] is True for st, fm in marks) and all(discards_pair(st) for st, fm in marks):
+        ctx.ok("C10-B1", site, "child marked seen whenever the pair is not dropped")
+    elif marks and all(fm[2] is True for st, fm in marks):
+        ctx.undecided("C10-B1", site, "the popped element is marked under a condition the rule does not recognise", "")
+    elif not marks and ([n_ for n_ in au.walk(loop) if isinstance(n_, ast.Name) and n_.id == SEEN and isinstance(n_.ctx, ast.Store)] or
+                        [c_ for c_ in au.calls(loop) if isinstance(c_.func, ast.Attribute) and isinstance(c_.func.value, ast.Name)
+                         and F.root(c_.func.value.id, c_) == F.root(SEEN, c_) and c_.func.attr not in ("get", "keys", "values", "items", "copy", "index", "count")]):
+        ctx.undecided("C10-B1", site, "the seen table is changed in the loop in a way the rule does not follow (re-binding, list append ..)", "")
     elif not marks and (F.opaque(loop, {SEEN, child}) or [st for st, tg_, v_ in hr.item_stores(loop) if isinstance(tg_.value, ast.Name)
                                                         and F.root(tg_.value.id, st) == F.root(SEEN, st)]
                         or [c_ for c_ in au.calls(loop) if isinstance(c_.func, ast.Attribute) and isinstance(c_.func.value, ast.Name)
@@ -448,7 +528,9 @@ def bfs_tree(ctx, modname, cname, fn0, kind, excl):
     pas = [(st, tg, val) for st, tg, val in hr.item_stores(loop) if au.is_self_attr(tg.value, "parent")]
     DIST = None
     if not pas:
-        if F.opaque(loop, {child, par}):
+        published = [st_ for st_ in au.stmts(fn.body) if isinstance(st_, (ast.Assign, ast.AnnAssign, ast.AugAssign))
+                     and any(au.is_self_attr(t_, "parent") or (isinstance(t_, ast.Subscript) and au.is_self_attr(_tab_base(t_), "parent")) for t_ in au.assign_targets(st_))]
+        if F.opaque(loop, {child, par}) or published:
             ctx.undecided("C10-B1", site, "the parent assignment of the search is not visible", "")
         else:
             ctx.fail("C10-B1", site, "parent table is not written exactly once per popped pair as parent[child] = expanded element",
@@ -466,6 +548,10 @@ def bfs_tree(ctx, modname, cname, fn0, kind, excl):
         conds = F.conds(st, stop=loop)
         has_test = any(is_seen(e, p, child, st) for e, p in conds)
         extra = [(e, p) for e, p in conds if not is_seen(e, p, child, st)]
+        # conditions under which the whole pair is dropped (they also guard every expansion) are not guards of the parent store itself
+        if inloop:
+            common_ = set.intersection(*[{(hr.key(e), p) for e, p in F.conds(c_, stop=loop)} for c_ in inloop])
+            extra = [(e, p) for e, p in extra if (hr.key(e), p) not in common_]
         has_dist = False
         if extra:
             okd = None
@@ -481,15 +567,20 @@ def bfs_tree(ctx, modname, cname, fn0, kind, excl):
                         w = None
                     upd = [(s2, t2, v2) for s2, t2, v2 in hr.item_stores(loop) if isinstance(t2.value, ast.Name) and t2.value.id == DIST]
                     same_conds = [u for u in upd if {(hr.key(e), p) for e, p in F.conds(u[0], stop=loop)} == {(hr.key(e), p) for e, p in conds}]
-                    if w is None:
-                        okd = None
+                    mentions_both = any(sk.is_sub(n_, DIST, par) for n_ in au.walk(guard)) and any(sk.is_sub(n_, DIST, child) for n_ in au.walk(guard))
+                    if w is None or not mentions_both:
+                        okd = None              # a test on one distance only (a sentinel value ..) is another scheme
+                    elif not w and _holds_for_unreached(guard, DIST, par, child):
+                        okd = None              # another comparison that is true for an unreached child
                     elif not w:
                         okd = False
                     else:
                         okd = len(upd) == 1 and len(same_conds) == 1 and sk.is_sub(upd[0][1], DIST, child) and upd[0][2] is not None \
                             and _is_plus_one(F.resolve(upd[0][2], upd[0][0], keep=(par, child)), DIST, par)
+                        if not okd and upd:
+                            okd = None          # the table is updated, but not in the form / at the place the rule reads
                         ivals, found = F.initial_values(DIST, loop)
-                        inf_init = any(F.is_inf(x) for x in ivals) or DIST in g2s.tables
+                        inf_init = any(F.is_inf(x) or (isinstance(order.fold_const(x), (int, float)) and order.fold_const(x) >= 1e100) for x in ivals) or DIST in g2s.tables
                         if okd and not inf_init:
                             # contradicted only by a table whose whole initial content is a recognised finite constant
                             okd = False if found and ivals and all(isinstance(x, ast.Constant) and isinstance(x.value, (int, float))
@@ -511,6 +602,8 @@ def bfs_tree(ctx, modname, cname, fn0, kind, excl):
             ctx.ok("C10-B1", S(st), "parent assigned once: seen test / distance guard")
         elif push_marks:
             ctx.undecided("C10-B1", S(st), "elements are marked when they are enqueued: the protection of the parent assignment is not analysed", "")
+        elif conds:
+            ctx.undecided("C10-B1", S(st), "the parent assignment is under a condition the rule does not recognise", "")
         else:
             _absent(ctx, F, loop, "C10-B1", S(st), "parent assignment is protected neither by `if seen[child]: continue` nor by a hop-distance comparison",
                     "an element reachable along two routes is queued twice: the later (never shorter) route overwrites its parent - the tree "
@@ -530,11 +623,17 @@ def bfs_tree(ctx, modname, cname, fn0, kind, excl):
     plain_false = (isinstance(sd, ast.ListComp) and isinstance(sd.elt, ast.Constant) and sd.elt.value is False) or \
         (isinstance(sd, ast.BinOp) and isinstance(sd.op, ast.Mult) and any(isinstance(x, ast.List) and len(x.elts) == 1 and au.const(x.elts[0]) is False for x in (sd.left, sd.right))) or \
         (isinstance(sd, ast.Call) and au.call_tail(sd) == "set" and not sd.args)
+    root_queued = [c_ for c_ in pre if (t_ := _pair_arg(F, c_)) is not None and (au.is_self_attr(F.resolve(t_.elts[ci], c_), "root") or au.is_self_attr(t_.elts[ci], "root"))]
     if root_seen:
         ctx.ok("C10-B1", site, "seen[root] = True")
+    elif root_queued:
+        ctx.undecided("C10-B1", site, "the root itself is queued as a child (sentinel pair): it is marked when it is popped", "")
     elif sd is not None and any(au.is_self_attr(n, "root") for n in ast.walk(sd)):
         ctx.ok("C10-B1", site, "the seen table is created with the root marked")
-    elif F.opaque(fn, {SEEN}) or not plain_false:
+    elif F.opaque(fn, {SEEN}) or not plain_false or \
+            [st_ for st_ in au.stmts(fn.body) if F.before(st_, loop) and not isinstance(st_, (ast.For, ast.While, ast.If)) and
+             any(isinstance(n_, ast.Name) and F.root(n_.id, st_) == F.root(SEEN, loop) for n_ in ast.walk(st_)) and
+             any(au.is_self_attr(n_, "root") or (isinstance(n_, ast.Name) and au.is_self_attr(F.resolve(n_, st_), "root")) for n_ in ast.walk(st_))]:
         ctx.undecided("C10-B1", site, "the mark of the root is not visible", "")
     else:
         ctx.fail("C10-B1", site, "root is not marked seen before the loop",
@@ -542,13 +641,18 @@ def bfs_tree(ctx, modname, cname, fn0, kind, excl):
     root_exp = [c for c in pre if (t_ := _pair_arg(F, c)) is not None and au.is_self_attr(F.resolve(t_.elts[pi], c), "root")]
     if root_exp:
         ctx.ok("C10-B1", site, "root expanded")
-    elif pre or F.opaque(fn, {Q}) or _other_queue_uses(F, Q):
+    elif pre or F.opaque(fn, {Q}) or _other_queue_uses(F, Q) or \
+            [c_ for c_ in inloop if (t_ := _pair_arg(F, c_)) is not None and (au.is_self_attr(F.resolve(t_.elts[pi], c_), "root") or au.is_self_attr(t_.elts[pi], "root"))]:
         ctx.undecided("C10-B1", site, "the seeding of the work-list is not recognised", "")
     else:
         ctx.fail("C10-B1", site, "neighbours of the root are not enqueued before the loop", "the tree stays empty")
     ivals, found = F.initial_values(SEEN, loop)
-    if any(isinstance(n, ast.Constant) and n.value is True for x in ivals for n in ast.walk(x)):
+    if isinstance(sd, ast.Dict):
+        ivals = [v_ for k_, v_ in zip(sd.keys, sd.values) if not (k_ is not None and (au.is_self_attr(k_, "root") or au.is_self_attr(F.resolve(k_, loop), "root")))]
+    if any(isinstance(x, ast.Constant) and x.value is True for x in ivals):
         ctx.fail("C10-B1", site, "seen table does not start all-False", "")
+    elif any(isinstance(n, ast.Constant) and n.value is True for x in ivals for n in ast.walk(x)):
+        ctx.undecided("C10-B1", site, "the initial content of the seen table is not recognised", "")
     else:
         ctx.ok("C10-B1", site, "seen starts False")
     if DIST is not None:
@@ -556,9 +660,17 @@ def bfs_tree(ctx, modname, cname, fn0, kind, excl):
               and au.is_self_attr(F.resolve(tg.slice, st), "root") and val is not None and au.const(val) == 0]
         dd = F.definition(DIST, loop)
         in_literal = isinstance(dd, ast.Dict) and any(k is not None and au.is_self_attr(k, "root") and au.const(v_) == 0 for k, v_ in zip(dd.keys, dd.values))
-        if rd or in_literal:
+        # `[0 if v == self.root else inf for v in ids]` : the root entry is part of the constructor
+        in_ctor = dd is not None and any(isinstance(n_, ast.IfExp) and any(au.is_self_attr(F.resolve(m_, loop), "root") or au.is_self_attr(m_, "root") for m_ in ast.walk(n_.test))
+                                         and any(au.const(x_) == 0 and not isinstance(au.const(x_), bool) for x_ in (n_.body, n_.orelse)) for n_ in ast.walk(dd))
+        root_elsewhere = [n_ for n_ in au.walk(fn) if isinstance(n_, ast.Subscript) and isinstance(n_.value, ast.Name) and F.root(n_.value.id, n_) == F.root(DIST, loop)
+                          and isinstance(n_.ctx, ast.Store) and not isinstance(n_.slice, ast.Slice) and not F.inside(n_, loop)] + \
+            [n_ for n_ in (ast.walk(dd) if dd is not None else []) if au.is_self_attr(n_, "root")] + \
+            [c_ for c_ in au.calls(fn) if isinstance(c_.func, ast.Attribute) and isinstance(c_.func.value, ast.Name) and F.root(c_.func.value.id, c_) == F.root(DIST, loop)
+             and c_.func.attr in ("update", "setdefault", "__setitem__", "insert")]
+        if rd or in_literal or in_ctor:
             ctx.ok("C10-B1", site, "dist[root] = 0")
-        elif isinstance(dd, (ast.ListComp, ast.BinOp)) and not F.opaque(fn, {DIST}):
+        elif isinstance(dd, (ast.ListComp, ast.BinOp)) and not F.opaque(fn, {DIST}) and not root_elsewhere:
             ctx.fail("C10-B1", site, "hop distance of the root is not set to 0 before the loop", "inf + 1 < inf is False: no element ever receives a parent")
         else:
             ctx.undecided("C10-B1", site, "the hop distance given to the root is not recognised", "")
@@ -646,6 +758,26 @@ def _cmp_dist(e, DIST, par, child):
             strict = strict and got == (p + 1 < c)
             nonstrict = nonstrict and got == (p + 1 <= c)
     return strict or nonstrict
+
+
+def _holds_for_unreached(e, DIST, par, child):
+    """the comparison is true when dist[child] is +inf and dist[par] is finite"""
+    def val(x, c):
+        if sk.is_sub(x, DIST, par):
+            return 3
+        if sk.is_sub(x, DIST, child):
+            return c
+        k = order.fold_const(x)
+        if k is not None:
+            return k
+        if isinstance(x, ast.BinOp) and isinstance(x.op, (ast.Add, ast.Sub)):
+            l, r = val(x.left, c), val(x.right, c)
+            return l + r if isinstance(x.op, ast.Add) else l - r
+        raise order.Unsupported(au.src(x))
+    try:
+        return bool(order.CMP[type(e.ops[0])](val(e.left, float("inf")), val(e.comparators[0], float("inf"))))
+    except Exception:
+        return False
 
 
 def _is_plus_one(e, DIST, par):
@@ -739,11 +871,13 @@ def p1_children(ctx, modname, cname, fn0, F, kind, loop, DIST, par_, child_, SEE
     ch = [c for c in au.calls(fn) if au.call_tail(c) == "append" and isinstance(c.func.value, ast.Subscript)
           and au.is_self_attr(c.func.value.value, "children") and len(c.args) == 1]
     ed = [c for c in au.calls(fn) if au.call_tail(c) == "append" and au.is_self_attr(c.func.value, "edges") and len(c.args) == 1]
-    opaque = F.impure_self_calls(fn)
+    opaque = list(F.impure_self_calls(fn)) + list(F.opaque(fn))
     opaque = list(opaque) + [st for st in au.stmts(fn.body) if isinstance(st, (ast.Assign, ast.AugAssign, ast.AnnAssign))
                              and any(au.is_self_attr(t, "children") or au.is_self_attr(t, "edges") for t in au.assign_targets(st))]
     opaque += [c for c in au.calls(fn) if isinstance(c.func, ast.Attribute) and c.func.attr in ("extend", "insert", "update")
                and (au.is_self_attr(c.func.value, "edges") or au.is_self_attr(c.func.value, "children"))]
+    known_nodes = {id(n_) for c_ in ch + ed for n_ in ast.walk(c_)}
+    opaque += [n_ for n_ in au.walk(fn) if (au.is_self_attr(n_, "children") or au.is_self_attr(n_, "edges")) and id(n_) not in known_nodes]
     if len(ch) != 1 or len(ed) != 1:
         if (len(ch) == 0) != (len(ed) == 0) and len(ch) <= 1 and len(ed) <= 1 and not opaque:
             ctx.fail("C10-P1", site, "children / edges are not each filled by exactly one append",
@@ -827,6 +961,10 @@ def p1_children(ctx, modname, cname, fn0, F, kind, loop, DIST, par_, child_, SEE
             ctx.ok("C10-P1", S(c), "guarded by parent[v] is not None")
         elif any(_is_none_cmp(e) is not None and au.src(_is_none_cmp(e)) == "self.parent[_v]" and p for e, p in atoms):
             ctx.fail("C10-P1", S(c), "children / edges block is guarded by `parent[v] is None` (inverted)", "")
+        elif [1 for e, p in atoms if not (isinstance(e, ast.Call) and au.call_tail(e) == "isinf")
+              and not (isinstance(e, ast.Compare) and len(e.ops) == 1 and isinstance(e.ops[0], (ast.Eq, ast.NotEq, ast.Lt))
+                       and any(F.is_inf(x_) for x_ in [e.left] + list(e.comparators)))]:
+            ctx.undecided("C10-P1", S(c), "the children / edges block is guarded by conditions the rule does not recognise", "")
         else:
             _absent(ctx, F, lp, "C10-P1", S(c), "children / edges block is not guarded by `parent[v] is not None`",
                     "the root and unreached elements have no parent: children[None] raises TypeError")
@@ -834,6 +972,8 @@ def p1_children(ctx, modname, cname, fn0, F, kind, loop, DIST, par_, child_, SEE
     k2 = {(au.src(e), p) for e, p in csets[1]}
     if k1 == k2:
         ctx.ok("C10-P1", S(c1), "children and edges filled under the same conditions")
+    elif lp1 is not lp2:
+        ctx.undecided("C10-P1", S(c1), "children and edges are filled by two loops whose conditions are written differently", "")
     else:
         _absent(ctx, F, [lp1, lp2], "C10-P1", S(c1), "children[p].append(v) and edges.append(keyify(p, v)) are not executed under the same conditions",
                 "an element listed as a child without its tree edge (or the reverse): len(edges) != number of reached elements - 1")
@@ -896,7 +1036,10 @@ def _s1_compute_tables(ctx, modname, cname, fn0, F, kind, loop, tables):
         k = _table_kind(F, d, loop)
         if k is None:
             continue
-        ctx.check(k == kind, "C10-S1", ctx.site(modname, fn0, loop), f"{cname}.compute sizes a work table over {k} instead of {kind}",
+        if k not in ("vertices", "edges", "faces", "cells", "parent"):
+            ctx.undecided("C10-S1", ctx.site(modname, fn0, loop), f"{cname}.compute sizes a work table over something that is not an element kind", "")
+            continue
+        ctx.check(k in (kind, "parent"), "C10-S1", ctx.site(modname, fn0, loop), f"{cname}.compute sizes a work table over {k} instead of {kind}",
                   f"tables of one tree are all indexed by {kind} ids", note=f"work tables over {kind}")
 
 
@@ -1037,51 +1180,101 @@ def _sets_flag_on_all_exits(ctx, modname, cname, fn, depth=0):
                     and isinstance(n.func.value, ast.Call) and au.call_tail(n.func.value) == "super":
                 if super_sets():
                     state = state | {"computed"}
+            # Base.compute(self): an explicit call of the method of a named class of the tree modules
+            if isinstance(n, ast.Call) and isinstance(n.func, ast.Attribute) and n.func.attr == "compute" and isinstance(n.func.value, ast.Name) \
+                    and n.args and isinstance(n.args[0], ast.Name) and n.args[0].id == "self" and depth <= 4:
+                for mn_ in (BASE, EDGE, FACE, CELL):
+                    m_ = repo.module(mn_)
+                    if n.func.value.id in m_.classes and (n.func.value.id + ".compute") in m_.funcs:
+                        if _sets_flag_on_all_exits(ctx, mn_, n.func.value.id, m_.funcs[n.func.value.id + ".compute"], depth + 1)[0]:
+                            state = state | {"computed"}
         if isinstance(st, (ast.Assign, ast.AnnAssign)):
             for t in au.assign_targets(st):
                 if au.is_self_attr(t, "_computed"):
                     state = (state | {"computed"}) if au.const(st.value) is True else (state - {"computed"})
         return state
-    fl = flow.Flow(t_stmt)
+
+    def refine(state, e, branch):
+        # on the branch where the flag tests true it is set
+        for x, p in sk.atoms([(e, branch)]):
+            if au.is_self_attr(x, "_computed") and p:
+                return state | {"computed"}
+        return state
+    fl = flow.Flow(t_stmt, None, refine)
     fl.run(F.fn.body, frozenset())
     bad = [(k, n) for k, n, s in fl.exits if k in ("return", "fall") and "computed" not in s]
     return (not bad and bool([e for e in fl.exits if e[0] in ("return", "fall")])), bad
 
 
+def F_before_(fn, a, b):
+    """node a comes before statement b in the text of fn"""
+    order_ = {id(x): i for i, x in enumerate(au.stmts(fn.body))}
+    sa = au.enclosing_stmt(a) if not isinstance(a, ast.stmt) else a
+    return sa is not None and id(sa) in order_ and id(b) in order_ and order_[id(sa)] < order_[id(b)]
+
+
 def c1_computed(ctx):
     repo = ctx.repo
+    if not any(isinstance(n_, ast.Attribute) and n_.attr == "_computed" for mn_ in (BASE, EDGE, FACE, CELL) for n_ in ast.walk(repo.module(mn_).tree)):
+        ctx.undecided("C10-C1", ctx.site(BASE, "SpanningTree"), "the flag `_computed` of the spanning trees is not found (renamed?)", "")
+        return
     for modname, cname in TREE_COMPUTES:
         fn = repo.func(modname, cname + ".compute")
         ok, bad = _sets_flag_on_all_exits(ctx, modname, cname, fn)
-        ctx.check(ok, "C10-C1", ctx.site(modname, fn), f"{cname}.compute leaves `_computed` unset on a normal exit",
-                  "traverse() then raises 'Tree was not computed' although compute() was called (forests call traverse right after compute)",
-                  note="_computed set on all normal exits")
+        Fc = _flat(ctx, modname, fn)
+        unseen = list(Fc.impure_self_calls(Fc.fn)) + [c_ for c_ in au.calls(Fc.fn) if isinstance(c_.func, ast.Attribute) and isinstance(c_.func.value, ast.Name)
+                                                      and c_.func.value.id == "self" and not hf_flat.is_private(c_.func.attr)
+                                                      and c_.func.attr not in Fc.KNOWN_METHODS and repo.has_func(modname, cname + "." + c_.func.attr)]
+        unseen += [c_ for c_ in au.calls(Fc.fn) if isinstance(c_.func, ast.Attribute) and c_.func.attr in ("setattr", "__setattr__")]
+        unseen += [c_ for c_ in au.calls(Fc.fn) if isinstance(c_.func, ast.Name) and c_.func.id == "setattr"]
+        unseen += [c_ for c_ in au.calls(Fc.fn) if any(isinstance(a_, ast.Name) and a_.id == "self" for a_ in list(c_.args) + [k_.value for k_ in c_.keywords])
+                   and not (isinstance(c_.func, ast.Attribute) and c_.func.attr == "compute")]
+        unseen += [d_ for d_ in fn.decorator_list if au.src(d_).rsplit(".", 1)[-1] not in ("abstractmethod", "override", "final")]
+        if ok:
+            ctx.ok("C10-C1", ctx.site(modname, fn), "_computed set on all normal exits")
+        elif unseen:
+            ctx.undecided("C10-C1", ctx.site(modname, fn), f"how {cname}.compute sets `_computed` is not visible", "")
+        else:
+            ctx.fail("C10-C1", ctx.site(modname, fn), f"{cname}.compute leaves `_computed` unset on a normal exit",
+                     "traverse() then raises 'Tree was not computed' although compute() was called (forests call traverse right after compute)")
     # initial value and writers
-    init = repo.func(BASE, "SpanningTree.__init__")
+    init0_ = repo.func(BASE, "SpanningTree.__init__")
+    Fi_ = _flat(ctx, BASE, init0_)
+    init = Fi_.fn
     w = [st for st in au.stmts(init.body) if isinstance(st, (ast.Assign, ast.AnnAssign)) and any(au.is_self_attr(t, "_computed") for t in au.assign_targets(st))]
     if len(w) == 1 and au.const(w[0].value) is False and not au.guards(w[0]):
-        ctx.ok("C10-C1", ctx.site(BASE, init), "_computed = False in __init__")
+        ctx.ok("C10-C1", ctx.site(BASE, init0_), "_computed = False in __init__")
     elif not w:
         # a class-level default also creates the flag
         cls = repo.cls(BASE, "SpanningTree")
         cl = [st for st in cls.body if isinstance(st, (ast.Assign, ast.AnnAssign)) and any(isinstance(t, ast.Name) and t.id == "_computed" for t in au.assign_targets(st))
               and st.value is not None and au.const(st.value) is False]
         if cl:
-            ctx.ok("C10-C1", ctx.site(BASE, init), "_computed = False as class default")
+            ctx.ok("C10-C1", ctx.site(BASE, init0_), "_computed = False as class default")
+        elif [b_ for b_ in cls.bases if au.src(b_).rsplit(".", 1)[-1] not in ("ABC", "object", "Generic")] or \
+                [c_ for c_ in au.calls(init) if isinstance(c_.func, ast.Attribute) and isinstance(c_.func.value, ast.Call) and au.call_tail(c_.func.value) == "super"]:
+            ctx.undecided("C10-C1", ctx.site(BASE, init0_), "`_computed` may be created by a base class of SpanningTree", "")
+        elif Fi_.impure_self_calls(init) or [c_ for c_ in au.calls(init) if isinstance(c_.func, ast.Attribute) and isinstance(c_.func.value, ast.Name)
+                                              and c_.func.value.id == "self" and repo.has_func(BASE, "SpanningTree." + c_.func.attr)] \
+                or [c_ for c_ in au.calls(init) if au.call_tail(c_) in ("setattr", "__setattr__", "update")]:
+            ctx.undecided("C10-C1", ctx.site(BASE, init0_), "how `_computed` is created by SpanningTree.__init__ is not visible", "")
         else:
-            ctx.fail("C10-C1", ctx.site(BASE, init), "`_computed` is not initialised to False in SpanningTree.__init__",
+            ctx.fail("C10-C1", ctx.site(BASE, init0_), "`_computed` is not initialised to False in SpanningTree.__init__",
                      "a fresh tree must refuse traversal (or: AttributeError in traverse when the flag is never created)")
     elif any(au.const(x.value) is True for x in w):
-        ctx.fail("C10-C1", ctx.site(BASE, init), "`_computed` is not initialised to False in SpanningTree.__init__", "a fresh tree must refuse traversal")
+        ctx.fail("C10-C1", ctx.site(BASE, init0_), "`_computed` is not initialised to False in SpanningTree.__init__", "a fresh tree must refuse traversal")
     else:
-        ctx.undecided("C10-C1", ctx.site(BASE, init), "the initialisation of `_computed` is not recognised", "")
+        ctx.undecided("C10-C1", ctx.site(BASE, init0_), "the initialisation of `_computed` is not recognised", "")
     for modname in (BASE, EDGE, FACE, CELL):
         m = repo.module(modname)
         for q, f in m.funcs.items():
             for st in au.stmts(f.body):
                 if isinstance(st, (ast.Assign, ast.AnnAssign)) and any(isinstance(t, ast.Attribute) and t.attr == "_computed" for t in au.assign_targets(st)):
                     if au.const(st.value) is True:
-                        ctx.check(f.name == "compute" or hf_flat.is_private(f.name), "C10-C1", ctx.site(modname, f, st),
+                        outer_ = q.split(".<locals>.")[0].rsplit(".", 1)[-1]
+                        after_compute = any(isinstance(c_.func, ast.Attribute) and c_.func.attr == "compute" and F_before_(f, c_, st) for c_ in au.calls(f))
+                        ctx.check(f.name == "compute" or hf_flat.is_private(f.name) or outer_ == "compute" or hf_flat.is_private(outer_) or after_compute,
+                                  "C10-C1", ctx.site(modname, f, st),
                                   "`_computed = True` outside a compute method",
                                   "the flag would claim tables that were never built", note="flag set by compute only")
     # traverse tests the flag before touching the tables
@@ -1092,7 +1285,7 @@ def c1_computed(ctx):
 
     def scan(state, node):
         for x in au.walk(node):
-            if au.is_self_attr(x) and x.attr in ("children", "root", "parent", "edges"):
+            if isinstance(x, (ast.Yield, ast.YieldFrom)):
                 uses[id(x)] = (x, "tested" in state)
 
     def t_stmt(state, st):
@@ -1110,15 +1303,30 @@ def c1_computed(ctx):
         for x, p in sk.atoms([(e, branch)]):
             if au.is_self_attr(x, "_computed") and p:
                 return state | {"tested"}
+            # getattr(self, "_computed", False)
+            if isinstance(x, ast.Call) and au.call_tail(x) == "getattr" and len(x.args) >= 2 and isinstance(x.args[0], ast.Name) and x.args[0].id == "self" \
+                    and au.const(x.args[1]) == "_computed" and p and (len(x.args) == 2 or au.const(x.args[2]) in (False, None, 0)):
+                return state | {"tested"}
         return state
     flow.Flow(t_stmt, t_test, refine).run(tr.body, frozenset())
     if not uses:
-        ctx.undecided("C10-C1", site, "traverse does not read self.root / self.children directly", "")
+        ctx.undecided("C10-C1", site, "traverse does not yield anything directly", "")
     badu = [x for x, okk in uses.values() if not okk]
-    if uses:
+    if uses and badu and (tr0.decorator_list or _flat(ctx, BASE, tr0).impure_self_calls(tr) or
+                          any(isinstance(c_, ast.Call) and any(au.is_self_attr(a_, "_computed") or (isinstance(a_, ast.Constant) and a_.value == "_computed")
+                                                               for a_ in list(c_.args) + [k_.value for k_ in c_.keywords]) for c_ in au.calls(tr)
+                              if au.call_tail(c_) != "getattr") or
+                          any(isinstance(n_, ast.Try) for n_ in au.walk(tr)) or
+                          any(isinstance(c_, ast.Call) and any(isinstance(a_, ast.Name) and a_.id == "self" for a_ in list(c_.args) + [k_.value for k_ in c_.keywords])
+                              for c_ in au.calls(tr)) or
+                          any(au.is_self_attr(n_) and ctx.repo.has_func(BASE, "SpanningTree." + n_.attr) and
+                              any(au.src(d_) == "property" for d_ in ctx.repo.func(BASE, "SpanningTree." + n_.attr).decorator_list) for n_ in au.walk(tr))):
+        # the flag is consulted in a way the rule does not follow (a decorator, a helper, a try block ..)
+        ctx.undecided("C10-C1", site, "how traverse tests `self._computed` before reading the tree tables is not recognised", "")
+    elif uses:
         ctx.check(not badu, "C10-C1", site, "traverse reads the tree tables without having tested `self._computed`",
-                  "on a tree that was not computed traverse silently yields the bare root instead of raising: "
-                  + ", ".join(sorted({au.src(x) for x in badu})), note="`if not self._computed: raise` dominates the reads")
+                  "on a tree that was not computed traverse silently yields the bare root instead of raising",
+                  note="`if not self._computed: raise` dominates every yield")
 
 
 # ----------------------------------------------------------------------- C10-K1
@@ -1184,8 +1392,8 @@ def k1_kruskal(ctx):
     ufdef = ufst.value
     dom = b.resolve(ufdef.args[0], at=ufst, keep=("self",)) if len(ufdef.args) == 1 else None
     dk = _kind_of_range(F, dom, ufst) if dom is not None else None
-    if dk == "vertices":
-        ctx.ok(R, S(ufst), "UnionFind over the vertex ids")
+    if dk in ("vertices", "parent"):
+        ctx.ok(R, S(ufst), "UnionFind over the vertex ids")        # len(self.parent) is the number of vertices (C10-S1)
     elif dk is not None:
         ctx.fail(R, S(ufst), "union-find is not created over every vertex id", f"it ranges over {dk}: find() raises ValueError for a missing element")
     elif dom is None and not ufdef.args:
@@ -1221,6 +1429,9 @@ def k1_kruskal(ctx):
                     E = E or v_.slice.id
                 elif F.root(v_.slice.id, st) in tnames:
                     ends_ok = True
+                elif hr.closure(F.deps(), {v_.slice.id}) & (tnames | ({it.id} if isinstance(it, ast.Name) else set())) or \
+                        not isinstance(lp.target, ast.Name) or (isinstance(it, ast.Call) and au.call_tail(it) == "range"):
+                    ends_ok = None                       # derived from the loop variable in a way the rule does not follow (positions ..)
                 else:
                     ends_ok = False
     if ends_ok is True:
@@ -1252,6 +1463,8 @@ def k1_kruskal(ctx):
         ctx.fail(R, s, "the connectivity test is not on the pair that is united", "")
     elif not guard and not rest and not isinstance(au.parent(un), ast.Expr):
         ctx.undecided(R, s, "the result of union(a, b) is used: the guard of Kruskal's selection is not recognised", "")
+    elif not guard and not rest and [n_ for n_ in au.walk(lp) if isinstance(n_, ast.Name) and n_.id == UF and not any(n_ is m_ for m_ in ast.walk(un))]:
+        ctx.undecided(R, s, "the union is unconditional and the union-find is consulted elsewhere in the loop", "")
     elif not guard and not rest:
         _absent(ctx, F, lp, R, s, "union is not guarded by `not uf.connected(a, b)`", "an edge closing a cycle must be rejected")
     else:
@@ -1266,13 +1479,17 @@ def k1_kruskal(ctx):
         okk = isinstance(k, ast.Call) and au.call_tail(k) == "keyify" and sorted(au.src(x) for x in k.args) == sorted([A, B])
         if okk and same_conds(edge_rec[0]):
             ctx.ok(R, s, "edges.append(keyify(a, b)) with the union")
-        elif okk:
+        elif okk and all(conn_atom(e_) is not None for e_, p_ in list(F.conds(edge_rec[0], stop=lp)) + list(conds)) \
+                and not any(p_ for e_, p_ in F.conds(edge_rec[0], stop=lp)):
             ctx.fail(R, s, "accepted edge is not recorded as edges.append(keyify(a, b)) under the test of the union", "the record and the union must go together")
+        elif okk:
+            ctx.undecided(R, s, "the record of the accepted edge is under a condition the rule does not recognise", "")
         else:
             ctx.undecided(R, s, "the edge recorded by Kruskal's loop is not keyify(a, b)", "")
     elif not edge_rec and not F.opaque(lp, {A, B}) and not [st for st in au.stmts(fn.body) if isinstance(st, (ast.Assign, ast.AugAssign, ast.AnnAssign))
                                                                  and any(au.is_self_attr(t, "edges") for t in au.assign_targets(st))] \
-            and not [c for c in au.calls(fn) if isinstance(c.func, ast.Attribute) and au.is_self_attr(c.func.value, "edges") and c.func.attr != "append"]:
+            and not [c for c in au.calls(fn) if isinstance(c.func, ast.Attribute) and au.is_self_attr(c.func.value, "edges") and c.func.attr != "append"] \
+            and not [n_ for n_ in au.walk(fn) if au.is_self_attr(n_, "edges") and not F.inside(n_, lp)]:
         ctx.fail(R, s, "accepted edge is not recorded as edges.append(keyify(a, b)) under the test of the union", "no edges.append in the loop")
     else:
         ctx.undecided(R, s, "the record of the accepted edge is not recognised", "")
@@ -1286,8 +1503,10 @@ def k1_kruskal(ctx):
     elif NB and set(pairs) < {(A, B), (B, A)} and len(adds) == 1:
         _absent(ctx, F, lp, R, s, "adjacency of the accepted edge is not inserted in both directions under the test of the union",
                 "one direction only: the orientation pass walks this adjacency from the root")
-    elif NB and pairs == sorted([(A, B), (B, A)]):
+    elif NB and pairs == sorted([(A, B), (B, A)]) and all(conn_atom(e_) is not None for c_ in adds for e_, p_ in list(F.conds(c_, stop=lp)) + list(conds)):
         ctx.fail(R, s, "adjacency of the accepted edge is not inserted in both directions under the test of the union", "the inserts are not under the same test")
+    elif NB and pairs == sorted([(A, B), (B, A)]):
+        ctx.undecided(R, s, "the adjacency of the accepted edge is filled under a condition the rule does not recognise", "")
     else:
         ctx.undecided(R, s, "the adjacency filled by Kruskal's loop is not recognised", "")
         NB = None
@@ -1301,6 +1520,9 @@ def k1_kruskal(ctx):
         d = b.reaching(LIST, lp)
         if isinstance(d, ast.Call) and au.call_tail(d) == "sorted" and d.args:
             sort_node = d
+        elif isinstance(d, ast.Call) and au.call_tail(d) == "argsort" and ends_ok is not True:
+            ctx.undecided(R, site, "Kruskal's loop scans positions given by argsort: how they are turned into edge ids is not recognised", "")
+            LIST = None
         elif isinstance(d, ast.Call) and au.call_tail(d) == "argsort":
             ctx.fail(R, site, "the edge list scanned by Kruskal's loop is the result of argsort",
                      "argsort returns positions in the candidate list, not edge ids: with a filtered candidate list the loop scans other edges")
@@ -1312,7 +1534,16 @@ def k1_kruskal(ctx):
                 sort_node = sorts[0]
                 later = [x for x in au.stmts(fn.body) if LIST in [nm for t in au.assign_targets(x) for nm in au.assigned_names(t)]
                          and F.before(sort_node, x) and F.before(x, lp)]
-                if later:
+                if later and all(isinstance(getattr(x_, "value", None), ast.Call) and au.call_tail(x_.value) in ("tuple", "list") and len(x_.value.args) == 1
+                                 and isinstance(x_.value.args[0], ast.Name) and x_.value.args[0].id == LIST for x_ in later):
+                    later = []          # a copy of the sorted list under the same name
+                if later and any(LIST in au.names(getattr(x_, "value", None) or ast.Constant(value=0)) or
+                                 any(isinstance(n_, ast.Name) and F.root(n_.id, x_) in (LIST, F.root(LIST, sort_node if isinstance(sort_node, ast.stmt) else au.enclosing_stmt(sort_node)))
+                                     for n_ in ast.walk(getattr(x_, "value", None) or ast.Constant(value=0))) for x_ in later):
+                    ctx.undecided(R, S(later[0]), "the edge list is rebuilt from itself after it was sorted", "")
+                    sort_node = None
+                    LIST = None
+                elif later:
                     ctx.fail(R, S(later[0]), "the edge list is rebuilt after it was sorted", "")
                     sort_node = None
                     LIST = None
@@ -1337,12 +1568,23 @@ def k1_kruskal(ctx):
         key = [kw.value for kw in sort_node.keywords if kw.arg == "key"]
         rev = [kw.value for kw in sort_node.keywords if kw.arg == "reverse"]
         asc = not rev or au.const(rev[0]) is False
-        if not asc:
+        neg_key = any(isinstance(n_, ast.UnaryOp) and isinstance(n_.op, ast.USub) for k_ in key for n_ in ast.walk(k_))
+        if not asc and (neg_key or (isinstance(lp.iter, ast.Call) and au.call_tail(lp.iter) == "reversed") or
+                        any(isinstance(n_, ast.Slice) and n_.step is not None for n_ in ast.walk(lp.iter))):
+            ctx.undecided(R, S(sort_node), "the edge list is sorted in descending order of a quantity the rule does not follow", "")
+            asc = None
+        elif not asc:
             ctx.fail(R, S(sort_node), "edge list is not sorted ascending by the weight callable between its construction and Kruskal's loop", "descending sort")
         sconds = F.conds(sort_node)
         own = [(e, p) for e, p in sconds if not any(hr.key(e) == hr.key(e2) and p == p2 for e2, p2 in F.conds(lp))]
         keyinfo = _weight_key(F, key[0], sort_node) if key else None
-        if not key:
+        sarg = sort_node.args[0] if au.call_tail(sort_node) == "sorted" and sort_node.args else None
+        if not key and sarg is not None and not (isinstance(sarg, ast.Name) or (isinstance(sarg, ast.Call) and au.call_tail(sarg) in ("range", "list", "set"))
+                                                 or isinstance(sarg, ast.Attribute)):
+            ctx.undecided(R, S(sort_node), "Kruskal's loop scans a sorted sequence the rule does not recognise (decorated entries ..)", "")
+        elif not key and not isinstance(lp.target, ast.Name):
+            ctx.undecided(R, S(sort_node), "Kruskal's loop scans a sorted sequence of compound entries", "")
+        elif not key:
             ctx.fail(R, S(sort_node), "edge list is sorted without the weight callable", "the edges are ordered by their ids, not by weight")
         elif keyinfo is None:
             ctx.undecided(R, S(sort_node), "the sort key of Kruskal's edge list is not recognised", "")
@@ -1524,6 +1766,12 @@ def _edge_selection(val, env):
     return "other"
 
 
+def _tab_base(e):
+    while isinstance(e, ast.Subscript):
+        e = e.value
+    return e
+
+
 def k2_orientation(ctx, F, fn0, NB, kruskal_loop):
     R = "C10-K1"
     fn = F.fn
@@ -1539,11 +1787,29 @@ def k2_orientation(ctx, F, fn0, NB, kruskal_loop):
         ctx.undecided(R, s, "orientation pass does not pop a (node, previous) pair", "")
         return
     v, prev = pair
+    # which slot of the popped pair is the previous node: the slot that holds None / self.root in the entries queued before the loop
+    slots = set()
+    for c_ in au.calls(fn):
+        if q_method(c_, Q, ("append", "appendleft")) and F.before(c_, loop) and not F.inside(c_, loop) and len(c_.args) == 1 \
+                and isinstance(c_.args[0], ast.Tuple) and len(c_.args[0].elts) == 2:
+            e0, e1 = c_.args[0].elts
+            if hr.is_none(e1) or (au.is_self_attr(e1, "root") and not au.is_self_attr(e0, "root")):
+                slots.add(1)
+            elif hr.is_none(e0) or (au.is_self_attr(e0, "root") and not au.is_self_attr(e1, "root")):
+                slots.add(0)
+    vi = 0
+    if slots == {0}:
+        v, prev = pair[1], pair[0]
+        vi = 1
     par = [(st, tg, val) for st, tg, val in hr.item_stores(loop) if au.is_self_attr(tg.value, "parent")]
+    def only_prev_not_none(st_):
+        cs_ = F.conds(st_, stop=loop)
+        return all(_is_none_cmp(e_) is not None and isinstance(_is_none_cmp(e_), ast.Name) and _is_none_cmp(e_).id == prev and not p_ for e_, p_ in cs_)
     if len(par) == 1 and isinstance(par[0][1].slice, ast.Name) and par[0][1].slice.id == v and isinstance(par[0][2], ast.Name) and par[0][2].id == prev \
-            and not F.conds(par[0][0], stop=loop):
+            and only_prev_not_none(par[0][0]):
         ctx.ok(R, s, "parent[v] = prev")
-    elif len(par) == 1 and isinstance(par[0][2], ast.Name):
+    elif len(par) == 1 and isinstance(par[0][2], ast.Name) and slots and not F.conds(par[0][0], stop=loop) \
+            and isinstance(par[0][1].slice, ast.Name) and {par[0][1].slice.id, par[0][2].id} <= set(pair):
         ctx.fail(R, s, "orientation pass does not set parent[node] = previous", "")
     else:
         ctx.undecided(R, s, "the parent store of the orientation pass is not recognised", "")
@@ -1558,14 +1824,27 @@ def k2_orientation(ctx, F, fn0, NB, kruskal_loop):
             filt = len(g.ifs) == 1 and any(isinstance(e_, ast.Compare) and isinstance(e_.ops[0], ast.Eq) and not p_
                                            and sorted([au.src(e_.left), au.src(e_.comparators[0])]) == sorted([x, prev])
                                            for e_, p_ in sk.atoms([(g.ifs[0], True)]))
+            edited_nb = [c_ for c_ in au.calls(loop) if isinstance(c_.func, ast.Attribute) and c_.func.attr in ("discard", "remove", "pop", "difference_update", "clear")
+                         and isinstance(_tab_base(c_.func.value), ast.Name) and F.root(_tab_base(c_.func.value).id, c_) == F.root(NB, c_)]
             if from_nb and au.src(val.elt) == x and filt:
                 ctx.ok(R, s, "children[v] = [x for x in nb[v] if x != prev]")
                 CH = True
+            elif from_nb and au.src(val.elt) == x and not g.ifs and edited_nb:
+                ctx.undecided(R, s, "the Kruskal adjacency is edited during the orientation pass", "")
             elif from_nb and au.src(val.elt) == x and not g.ifs:
                 ctx.fail(R, s, "children[node] is not `the Kruskal neighbours of node except the previous node`",
                          "keeping the previous node walks every tree edge back and forth for ever")
             else:
                 ctx.undecided(R, s, "children[node] of the orientation pass is not recognised", "")
+        elif isinstance(val, ast.Call) and au.call_tail(val) in ("list", "sorted") and len(val.args) == 1 and sk.is_sub(val.args[0], NB, v) \
+                and [c_ for c_ in au.calls(loop) if isinstance(c_.func, ast.Attribute) and c_.func.attr in ("discard", "remove", "pop", "difference_update", "clear")
+                     and isinstance(_tab_base(c_.func.value), ast.Name) and F.root(_tab_base(c_.func.value).id, c_) == F.root(NB, c_)] + \
+                [st_ for st_ in au.stmts(loop.body) if isinstance(st_, (ast.AugAssign, ast.Delete))]:
+            ctx.undecided(R, s, "the Kruskal adjacency is edited during the orientation pass", "")
+        elif isinstance(val, ast.Call) and au.call_tail(val) in ("list", "sorted") and len(val.args) == 1 and sk.is_sub(val.args[0], NB, v) \
+                and [c_ for c_ in au.calls(loop) if isinstance(c_.func, ast.Attribute) and c_.func.attr in ("remove", "discard", "pop") and
+                     isinstance(c_.func.value, ast.Subscript) and au.is_self_attr(c_.func.value.value, "children")]:
+            ctx.undecided(R, s, "children[node] is edited after it was copied from the Kruskal adjacency", "")
         elif isinstance(val, ast.Call) and au.call_tail(val) in ("list", "sorted") and len(val.args) == 1 and sk.is_sub(val.args[0], NB, v):
             ctx.fail(R, s, "children[node] is not `the Kruskal neighbours of node except the previous node`",
                      "keeping the previous node walks every tree edge back and forth for ever")
@@ -1580,9 +1859,9 @@ def k2_orientation(ctx, F, fn0, NB, kruskal_loop):
         if fr and isinstance(fr[0].target, ast.Name):
             itr = F.b.resolve(fr[0].iter, at=fr[0], keep=(v, prev, NB, "self"))
             over_children = self_tab(fr[0].iter, "children", v) or (chs and chs[0][2] is not None and hr.same(itr, F.b.resolve(chs[0][2], at=chs[0][0], keep=(v, prev, NB, "self"))))
-            if over_children and au.src(t[0]) == fr[0].target.id and au.src(t[1]) == v and not F.conds(enq[0], stop=fr[0]) and chs and F.before(chs[0][0], fr[0]):
+            if over_children and au.src(t[vi]) == fr[0].target.id and au.src(t[1 - vi]) == v and not F.conds(enq[0], stop=fr[0]) and chs and F.before(chs[0][0], fr[0]):
                 ctx.ok(R, s, "queue.append((child, v)) for child in children[v]")
-            elif over_children and au.src(t[1]) == fr[0].target.id and au.src(t[0]) == v:
+            elif over_children and au.src(t[1 - vi]) == fr[0].target.id and au.src(t[vi]) == v:
                 ctx.fail(R, s, "orientation pass does not enqueue (child, node) for every child of node", "the pair is enqueued as (node, child)")
             else:
                 ctx.undecided(R, s, "the enqueue of the orientation pass is not recognised", "")
@@ -1592,8 +1871,8 @@ def k2_orientation(ctx, F, fn0, NB, kruskal_loop):
         ctx.undecided(R, s, "the enqueue of the orientation pass is not recognised", "")
     # root initialisation: either the generic seed (root, None), or the root handled by hand
     seeds = [c for c in au.calls(fn) if q_method(c, Q, ("append", "appendleft")) and F.before(c, loop) and not F.inside(c, loop) and len(c.args) == 1]
-    generic = [c for c in seeds if isinstance(c.args[0], ast.Tuple) and len(c.args[0].elts) == 2 and au.is_self_attr(c.args[0].elts[0], "root")
-               and hr.is_none(c.args[0].elts[1]) and F.unconditional(c, loop)]
+    generic = [c for c in seeds if isinstance(c.args[0], ast.Tuple) and len(c.args[0].elts) == 2 and au.is_self_attr(c.args[0].elts[vi], "root")
+               and hr.is_none(c.args[0].elts[1 - vi]) and F.unconditional(c, loop)]
     if generic and len(seeds) == 1:
         ctx.ok(R, site, "orientation seeded with (root, None)")
         return
@@ -1603,9 +1882,9 @@ def k2_orientation(ctx, F, fn0, NB, kruskal_loop):
         return isinstance(e, ast.Subscript) and isinstance(e.value, ast.Name) and F.root(e.value.id, at) == F.root(NB, at) and au.is_self_attr(e.slice, "root")
     rc = [st for st in pre if isinstance(st, ast.Assign) and au.src(st.targets[0]) == "self.children[self.root]"
           and isinstance(st.value, ast.Call) and au.call_tail(st.value) in ("list", "sorted") and st.value.args and nb_root(st.value.args[0], st)]
-    rq = [c for c in seeds if isinstance(c.args[0], ast.Tuple) and len(c.args[0].elts) == 2 and au.is_self_attr(c.args[0].elts[1], "root")
+    rq = [c for c in seeds if isinstance(c.args[0], ast.Tuple) and len(c.args[0].elts) == 2 and au.is_self_attr(c.args[0].elts[1 - vi], "root")
           and [a for a in au.ancestors(c) if isinstance(a, ast.For) and (nb_root(a.iter, a) or au.src(a.iter) == "self.children[self.root]")
-               and au.src(c.args[0].elts[0]) == au.src(a.target)]]
+               and au.src(c.args[0].elts[vi]) == au.src(a.target)]]
     if len(rc) == 1 and len(rq) == 1:
         ctx.ok(R, site, "root seeds")
     else:
@@ -1653,6 +1932,11 @@ def f1_forests(ctx):
         rec_ok = isinstance(r.args[0], ast.Name) and F.root(r.args[0].id, r) == x
         if VIS is not None and len(conds) == 1 and not inverted and rec_ok:
             ctx.ok(R, S(r), "roots.append(x) under not visited[x]")
+        elif VIS is not None and inverted and (lambda iv_, d_: (iv_[1] and iv_[0] and all(isinstance(x_, ast.Constant) and x_.value in (True, 1) for x_ in iv_[0]))
+                                               or (isinstance(d_, ast.Call) and au.call_tail(d_) in ("set", "frozenset") and d_.args)
+                                               or isinstance(d_, (ast.SetComp,)))(F.initial_values(VIS, lp), F.definition(VIS, lp)):
+            ctx.undecided(R, S(r), "the flags of the forest are kept with the opposite polarity (a table that starts full and is cleared): not analysed", "")
+            continue
         elif VIS is not None and inverted:
             ctx.fail(R, S(r), "a root is not recorded for exactly the elements found unvisited (`if not visited[x]: roots.append(x)`)",
                      "the test is inverted: trees are started from visited elements only")
@@ -1685,32 +1969,53 @@ def f1_forests(ctx):
             if amap is None or not ps:
                 ctx.undecided(R, S(made[0]), "the constructor call of the tree of a new root is not recognised", "")
             else:
-                okm = ps[0] in amap and au.src(amap[ps[0]]) == "self.mesh"
+                # the tree object is run: T() / T.compute() / T.__call__() under the root test; a run the rule cannot place makes the verdict undecided
+                runs = [c for c in au.calls(fn) if (isinstance(c.func, ast.Name) and F.root(c.func.id, c) == T) or
+                        (isinstance(c.func, ast.Attribute) and c.func.attr in ("compute", "__call__") and isinstance(c.func.value, ast.Name)
+                         and F.root(c.func.value.id, c) == T)]
+                computed = computed or any(same_conds(c) and F.inside(c, lp) for c in runs)
+                runs = runs + [c for c in au.calls(lp) if isinstance(c.func, ast.Attribute) and c.func.attr in ("compute", "__call__") and c not in runs]
+                handed = [c for c in au.calls(lp) if any(isinstance(a, ast.Name) and F.root(a.id, c) == T for a in list(c.args) + [k.value for k in c.keywords])
+                          and not (au.call_tail(c) == "append" and au.is_self_attr(c.func.value, "trees"))]
+                unknown = []
+                why = []
+                if not computed:
+                    (unknown if runs or handed or F.opaque(lp, {T}) else why).append("the tree is not computed before it is traversed")
+                marg = amap.get(ps[0])
+                if marg is None or F.table_key(marg, made[0]) != "self.mesh":
+                    (why if marg is not None and isinstance(marg, ast.Attribute) and au.is_self_attr(marg) and marg.attr != "mesh" else unknown).append("it is not built on self.mesh")
                 rarg = amap.get(ps[1]) if len(ps) > 1 else None
-                okr = isinstance(rarg, ast.Name) and F.root(rarg.id, made[0]) == x
-                okx = True
+                if not (isinstance(rarg, ast.Name) and F.root(rarg.id, made[0]) == x):
+                    if rarg is None:
+                        why.append("its root is not the unvisited element (a random root is used)")
+                    elif isinstance(rarg, ast.Name) and any(au.is_self_attr(n_, "roots") for n_ in ast.walk(F.definition(rarg.id, made[0]) or ast.Constant(value=0))):
+                        unknown.append("its root is not the unvisited element")
+                    elif isinstance(rarg, ast.Name) or isinstance(rarg, ast.Constant):
+                        why.append("its root is not the unvisited element")
+                    else:
+                        unknown.append("its root is not the unvisited element")
                 if excl_field:
-                    okx = excl_field in amap and au.is_self_attr(amap[excl_field], excl_field)
-                if computed and okm and okr and okx:
+                    earg = amap.get(excl_field)
+                    if earg is None:
+                        later = [n_ for n_ in au.walk(lp) if isinstance(n_, ast.Attribute) and n_.attr == excl_field and not any(n_ is m_ for m_ in ast.walk(ctor))]
+                        (unknown if later else why).append(f"the forest's {excl_field} are not forwarded")
+                    elif not (au.is_self_attr(earg, excl_field) or F.table_key(earg, made[0]) == "self." + excl_field):
+                        (why if isinstance(earg, ast.Constant) or (isinstance(earg, ast.Call) and au.call_tail(earg) in ("set", "list") and not earg.args) else unknown).append(
+                            f"the forest's {excl_field} are not forwarded")
+                if not why and not unknown:
                     ctx.ok(R, S(made[0]), f"{tree}(self.mesh, x, ...)() under the root test")
-                else:
-                    why = []
-                    if not computed:
-                        why.append("the tree is not computed before it is traversed")
-                    if not okm:
-                        why.append("it is not built on self.mesh")
-                    if not okr:
-                        why.append("its root is not the unvisited element (a random root is used)" if rarg is None else "its root is not the unvisited element")
-                    if not okx:
-                        why.append(f"the forest's {excl_field} are not forwarded")
+                elif why:
                     ctx.fail(R, S(made[0]), f"the tree of a new root is not `{tree}(self.mesh, x{', self.' + excl_field if excl_field else ''})` computed before use",
                              "; ".join(why))
+                else:
+                    ctx.undecided(R, S(made[0]), "how the tree of a new root is built and run is not recognised", "; ".join(unknown))
         else:
             ctx.undecided(R, S(r), "the construction of the tree of a new root is not recognised", f"{len(made)} candidate statement(s)")
         if T is None:
             continue
         rec = [c for c in au.calls(lp) if au.call_tail(c) == "append" and au.is_self_attr(c.func.value, "trees") and len(c.args) == 1
-               and isinstance(c.args[0], ast.Name) and F.root(c.args[0].id, c) == T]
+               and ((isinstance(c.args[0], ast.Name) and F.root(c.args[0].id, c) == T) or
+                    (isinstance(c.args[0], ast.Call) and not c.args[0].args and isinstance(c.args[0].func, ast.Name) and F.root(c.args[0].func.id, c) == T))]
         if len(rec) == 1 and same_conds(rec[0]):
             ctx.ok(R, S(r), "trees.append(tree) with roots.append(x)")
         elif not rec and not F.opaque(lp, {T}) and not [st for st in au.stmts(fn.body) if isinstance(st, (ast.Assign, ast.AugAssign, ast.AnnAssign))
@@ -1736,6 +2041,11 @@ def f1_forests(ctx):
                     okm = False
         if okm is True:
             ctx.ok(R, S(marks[0][0]), "visited marked from tree.traverse()")
+        elif okm is not False and not marks and [st_ for st_ in au.stmts(lp.body) if isinstance(st_, ast.AugAssign) and isinstance(_tab_base(st_.target), ast.Name)
+                                                  and F.root(_tab_base(st_.target).id, st_) == F.root(VIS, lp)] + \
+                [c_ for c_ in au.calls(lp) if isinstance(c_.func, ast.Attribute) and isinstance(c_.func.value, ast.Name) and F.root(c_.func.value.id, c_) == F.root(VIS, lp)
+                 and c_.func.attr not in ("get", "keys", "values", "items", "copy", "index", "count")]:
+            ctx.undecided(R, S(r), "the visited table of the forest is updated in a way the rule does not follow", "")
         elif okm is False or (not marks and not F.opaque(lp, {VIS, T}) and not [n for n in au.walk(lp) if isinstance(n, ast.Name) and n.id == VIS
                                                                                and not isinstance(au.parent(n), ast.Subscript)]):
             ctx.fail(R, S(marks[0][0] if marks else r),
@@ -1750,7 +2060,7 @@ def f1_forests(ctx):
         if dv is not None:
             tk = _table_kind(F, dv, lp)
             if tk is not None:
-                ctx.check(tk == kind, "C10-S1", site, f"{cname}.compute sizes a work table over {tk} instead of {kind}",
+                ctx.check(tk in (kind, "parent"), "C10-S1", site, f"{cname}.compute sizes a work table over {tk} instead of {kind}",
                           f"tables of one forest are all indexed by {kind} ids", note=f"visited over {kind}")
 
 
@@ -1770,9 +2080,13 @@ def t1_traverse(ctx):
     Q = next(iter(qs))
     loop = loops[0]
     seeds = [c for c in au.calls(fn) if q_method(c, Q, ("append", "appendleft")) and F.before(c, loop) and not F.inside(c, loop)]
-    if len(seeds) == 1 and au.src(seeds[0].args[0]) == "(self.root, None)" and F.unconditional(seeds[0], loop):
+    ni = 0          # slot of the node in the queued pairs (the other slot holds its parent)
+    seed_t = seeds[0].args[0] if len(seeds) == 1 and len(seeds[0].args) == 1 and isinstance(seeds[0].args[0], ast.Tuple) and len(seeds[0].args[0].elts) == 2 else None
+    if seed_t is not None and au.is_self_attr(seed_t.elts[1], "root") and hr.is_none(seed_t.elts[0]):
+        ni = 1
+    if seed_t is not None and au.is_self_attr(seed_t.elts[ni], "root") and hr.is_none(seed_t.elts[1 - ni]) and F.unconditional(seeds[0], loop):
         ctx.ok(R, site, "queue seeded with (self.root, None)")
-    elif len(seeds) == 1 and isinstance(seeds[0].args[0], ast.Tuple):
+    elif seed_t is not None and all(au.is_self_attr(x_, "root") or isinstance(x_, ast.Constant) for x_ in seed_t.elts) and F.unconditional(seeds[0], loop):
         ctx.fail(R, site, "traverse is not seeded with (self.root, None)", "")
     else:
         ctx.undecided(R, site, "the seeding of traverse is not recognised", "")
@@ -1864,7 +2178,7 @@ def t1_traverse(ctx):
     if names is None:
         ctx.undecided(R, site, "popped entry of traverse is not unpacked as (node, parent)", "")
         return
-    node, par = names
+    node, par = names[ni], names[1 - ni]
     ys = [n for n in au.walk(loop) if isinstance(n, ast.Yield)]
     if len(ys) == 1 and ys[0].value is not None and au.src(ys[0].value) == f"({node}, {par})" and not sk.path_conds(ys[0], stop=loop):
         ctx.ok(R, site, "yield node, parent")
@@ -1877,9 +2191,9 @@ def t1_traverse(ctx):
         fr = [a for a in au.ancestors(enq[0]) if isinstance(a, ast.For) and F.inside(a, loop)]
         t = enq[0].args[0].elts
         if fr and isinstance(fr[0].target, ast.Name) and au.src(fr[0].iter) == f"self.children[{node}]" and not sk.path_conds(enq[0], stop=loop):
-            if au.src(t[0]) == fr[0].target.id and au.src(t[1]) == node:
+            if au.src(t[ni]) == fr[0].target.id and au.src(t[1 - ni]) == node:
                 ctx.ok(R, site, "queue.append((child, node)) for child in self.children[node]")
-            elif au.src(t[1]) == fr[0].target.id and au.src(t[0]) == node:
+            elif au.src(t[1 - ni]) == fr[0].target.id and au.src(t[ni]) == node:
                 ctx.fail(R, site, "traverse does not enqueue (child, node) for every child of the popped node", "it enqueues (node, child)")
             else:
                 ctx.undecided(R, site, "the enqueue of traverse is not recognised", "")
@@ -1942,8 +2256,27 @@ def e1_forest_edges(ctx):
             tgt = st.value.func.value
         if tgt is None:
             continue
-        if (isinstance(tgt, ast.Name) and tgt.id in shared and F.before(shared[tgt.id], st)) or tree_owned(tgt):
+        if tree_owned(tgt):
             bad.append(st)
+        elif isinstance(tgt, ast.Name) and tgt.id in shared and F.before(shared[tgt.id], st):
+            # the bindings of the name that may reach the change: the last unconditional one before it, and the conditional ones after that
+            binds = [(s2, v2) for s2 in au.stmts(F.fn.body) for n2, v2 in sym.split_assign(s2) if n2 == tgt.id and F.before(s2, st) and not F.inside(st, s2)]
+            binds.sort(key=lambda x: F.pos(x[0]))
+            dead = set()
+            for i_, (s1_, v1_) in enumerate(binds):
+                for s2_, v2_ in binds[i_ + 1:]:
+                    b1_, _o1 = au.enclosing_block(s1_)
+                    b2_, _o2 = au.enclosing_block(s2_)
+                    if b1_ is not None and b1_ is b2_:
+                        dead.add(id(s1_))           # re-bound later in the very same block, before control can leave it
+            binds = [x_ for x_ in binds if id(x_[0]) not in dead]
+            live = []
+            for s2, v2 in reversed(binds):
+                live.append(v2)
+                if not F.conds(s2) or F.unconditional(s2, st):
+                    break
+            if any(tree_owned(v2) or (isinstance(v2, ast.IfExp) and (tree_owned(v2.body) or tree_owned(v2.orelse))) for v2 in live):
+                bad.append(st)
     if bad:
         ctx.fail("C10-E1", ctx.site(BASE, fn0, bad[0]), "SpanningForest.edges extends in place the edge list owned by one of its trees",
                  "the list returned for the forest is the very list of a tree: every query appends the edges of the other trees to that tree, "
@@ -1976,7 +2309,8 @@ def u1_unionfind(ctx):
             l, r = v.left, v.comparators[0]
             if (is_find(l, ps[0]) and is_find(r, ps[1])) or (is_find(l, ps[1]) and is_find(r, ps[0])):
                 verdict = True
-            elif all(isinstance(x, ast.Subscript) and any(au.is_self_attr(n, "_par") for n in ast.walk(x)) for x in (l, r)):
+            elif all(isinstance(x, ast.Subscript) and any(au.is_self_attr(n, "_par") for n in ast.walk(x)) for x in (l, r)) \
+                    and not any(isinstance(n, ast.Call) and au.is_self_attr(n.func, "find") for x in (l, r) for n in ast.walk(x)):
                 verdict = "it compares entries of the parent table, not the roots returned by find(): two elements of one component whose paths are " \
                           "only partly compressed are reported as not connected"
     if verdict is True:
@@ -2006,6 +2340,8 @@ def s1_kinds(ctx):
                 p = sym.to_poly(hi, atom_of=lambda e: "N" if _kind_of_len(e) is not None else None, opaque=False)
             except sym.NotPoly:
                 p = None
+            if kinds_seen == {"parent"}:
+                kinds_seen = {kind}                 # len(self.parent): the table is sized over the element kind (checked below)
             if p is None or len(kinds_seen) != 1:
                 ctx.undecided("C10-S1", site, f"the range of the random root of {cname} is not recognised", "")
             elif kinds_seen != {kind}:
@@ -2016,7 +2352,7 @@ def s1_kinds(ctx):
                 ctx.fail("C10-S1", site, f"random root of {cname} is not randint(0, len(self.mesh.{kind}) - 1)",
                          "randint is inclusive on both ends: an upper bound of len(...) picks a root that does not exist")
             else:
-                ctx.fail("C10-S1", site, f"random root of {cname} is not randint(0, len(self.mesh.{kind}) - 1)", "")
+                ctx.undecided("C10-S1", site, f"the range of the random root of {cname} is not recognised", "")
         elif rr:
             ctx.undecided("C10-S1", site, f"the random root of {cname} is not recognised", "")
         tabs = {}
@@ -2035,8 +2371,10 @@ def s1_kinds(ctx):
                 ctx.ok("C10-S1", ctx.site(modname, init0, st), "a fresh children list per element")
                 k = _table_kind(F, v, st)
                 if k is not None:
-                    ctx.check(k == kind, "C10-S1", ctx.site(modname, init0, st), f"{cname}.__init__ sizes the children table over {k} instead of {kind}",
+                    ctx.check(k in (kind, "parent"), "C10-S1", ctx.site(modname, init0, st), f"{cname}.__init__ sizes the children table over {k} instead of {kind}",
                               f"tables of one tree are all indexed by {kind} ids", note=f"children over {kind}")
+            elif shared and [s2_ for s2_, tg2_, v2_ in hr.item_stores(init) if au.is_self_attr(tg2_.value, "children")]:
+                ctx.undecided("C10-S1", ctx.site(modname, init0, st), f"the children table of {cname} is filled again after its creation", "")
             elif shared:
                 ctx.fail("C10-S1", ctx.site(modname, init0, st), f"{cname}.__init__ does not create a fresh list per element in children",
                          "`[[]] * n` shares one children list between all elements")
@@ -2047,8 +2385,16 @@ def s1_kinds(ctx):
             k = _table_kind(F, v, st)
             if k is not None:
                 n += 1
-                ctx.check(k == kind, "C10-S1", ctx.site(modname, init0, st), f"{cname}.__init__ sizes the parent table over {k} instead of {kind}",
-                          f"tables of one tree are all indexed by {kind} ids", note=f"parent over {kind}")
+                if k == "parent":
+                    ck_ = _table_kind(F, tabs["children"][1], tabs["children"][0]) if "children" in tabs else None
+                    if ck_ == kind:
+                        k = kind            # sized by len(self.children), itself over the element kind
+                    else:
+                        ctx.undecided("C10-S1", ctx.site(modname, init0, st), f"the size of the parent table of {cname} is not recognised", "")
+                        k = None
+                if k is not None:
+                    ctx.check(k == kind, "C10-S1", ctx.site(modname, init0, st), f"{cname}.__init__ sizes the parent table over {k} instead of {kind}",
+                              f"tables of one tree are all indexed by {kind} ids", note=f"parent over {kind}")
         if "edges" in tabs:
             st, v = tabs["edges"]
             if not (isinstance(v, ast.List) and not v.elts or (isinstance(v, ast.Call) and au.call_tail(v) == "list" and not v.args)):
@@ -2102,6 +2448,11 @@ def n1_none_defaults(ctx):
                 continue
             n += 1
             truthy = _bool_context_uses(fn, p_)
+            zero_tests = [n_ for n_ in au.walk(fn) if isinstance(n_, ast.Compare) and len(n_.ops) == 1 and isinstance(n_.left, ast.Name) and n_.left.id == p_
+                          and isinstance(n_.comparators[0], ast.Constant) and n_.comparators[0].value == 0 and not isinstance(n_.comparators[0].value, bool)]
+            if truthy and zero_tests:
+                ctx.undecided("C10-N1", ctx.site(modname, fn_orig, truthy[0]), f"{cname}.__init__ tests the root parameter by truthiness next to an explicit test of 0", "")
+                continue
             ctx.check(not truthy, "C10-N1", ctx.site(modname, fn_orig, truthy[0] if truthy else fn_orig),
                       f"{cname}.__init__ tests the None-defaulted root parameter by truthiness",
                       "element 0 is falsy, so a requested root 0 is treated as 'not given' and replaced "
